@@ -180,6 +180,22 @@ func (tc *TypeChecker) CheckType(value interface{}, expectedType Type) error {
 		return nil
 	}
 
+	// An optional or union type is satisfied by whatever satisfies the inner
+	// type / one member. Going through CheckType (rather than comparing
+	// runtime types) keeps the value-level rules - JSON numbers for int,
+	// element checks, nested type definitions - in force inside `T?` and `A | B`.
+	if opt, ok := expectedType.(OptionalType); ok {
+		return tc.CheckType(value, opt.InnerType)
+	}
+	if union, ok := expectedType.(UnionType); ok && len(union.Types) > 0 {
+		for _, member := range union.Types {
+			if err := tc.CheckType(value, member); err == nil {
+				return nil
+			}
+		}
+		return fmt.Errorf("type mismatch: expected %s, got %s", tc.TypeToString(expectedType), tc.TypeToString(GetRuntimeType(value)))
+	}
+
 	// JSON has a single number type, so every number in a request body decodes
 	// to float64. Without this, an `int` field rejects the perfectly ordinary
 	// body {"id": 1} with "expected int, got float". A value with a fractional
